@@ -1,5 +1,6 @@
 import Dbg.Lemmas.RecompressPorts
 import Dbg.Lemmas.FinalKeys
+import Dbg.Lemmas.ChainOps
 /-! The graph `compress_graph` builds from a ported graph is again ported (into the pruned table). -/
 namespace Compress
 open Walk (Dir Conn Rel rm)
@@ -235,6 +236,131 @@ theorem glinkV_pal_none (g : G D) (join : D → D → Bool) (valid : List Nat) (
     rw [this]
   · rfl
 
+theorem joined_of_ochain {α : Type} (nl link : Walk.Link) (och : Nat × Dir → List (Nat × Dir))
+    (h : ∀ a b : Nat × Dir, nl a.1 a.2 = some b → ∃ x y, (och a).getLast? = some x ∧ (och b).head? = some y ∧ link x.1 x.2 = some y) :
+    ∀ (cs : List (Nat × Dir)), OChain nl cs → Joined link och cs := by
+  intro cs
+  induction cs with
+  | nil => intro _; trivial
+  | cons c t ih =>
+    intro hc
+    cases t with
+    | nil => trivial
+    | cons c' rest =>
+      have hc' : LinkedFrom nl c.1 c.2 (c' :: rest) := hc
+      exact ⟨h c c' hc'.1, ih hc'.2⟩
+
+/-- **the k-mer chain of a re-compressed node**: the chains of the old nodes on its path, each read in the orientation
+    in which the old node lies in the new one, joined by the k-mer-level good links that the node-level good links are -/
+theorem new_chain {T : Table D} {K : Nat} {st : Bool} {join0 : D → D → Bool} {nodes1 : List (Node D)}
+    {port1 : Nat → Dir → Nat × Dir} {mem1 : Nat → List Nat} {lk1 : Walk.Link}
+    (pg1 : PGraph T K st join0 nodes1 port1 mem1 lk1) (wf : WF T K st) (hes2 : ExtSym2 T st) (hcl : Closed T st)
+    (hx8 : ∀ (i : Nat) (n : Node D), nodes1[i]? = some n → n.exts.val < 256)
+    (csn : List (Nat × Dir))
+    (hoc : OChain (glinkV (⟨K, nodes1, st⟩ : G D) st (fun _ _ => true) (List.range nodes1.length)) csn)
+    (hlt : ∀ c ∈ csn, c.1 < nodes1.length) :
+    ∃ cs : List (Nat × Dir),
+      cs.map Prod.fst = csn.flatMap (fun c => if c.2 = Dir.R then mem1 c.1 else (mem1 c.1).reverse) ∧
+      OChain (linkOf T st (fun _ _ => true)) cs ∧
+      cs.head?.map flip2 = csn.head?.map (fun c => port1 c.1 c.2.flip) ∧
+      cs.getLast? = csn.getLast?.map (fun c => port1 c.1 c.2) := by
+  -- a chain for every old node
+  have hex : ∀ Y : Nat, ∃ ch : List (Nat × Dir), Y < nodes1.length →
+      (ch.map Prod.fst = mem1 Y ∧ OChain lk1 ch ∧ ch.head?.map flip2 = some (port1 Y .L) ∧ ch.getLast? = some (port1 Y .R)) := by
+    intro Y
+    by_cases hY : Y < nodes1.length
+    · obtain ⟨ch, h⟩ := pg1.chain Y hY
+      exact ⟨ch, fun _ => h⟩
+    · exact ⟨[], fun h => absurd h hY⟩
+  obtain ⟨ch, hch⟩ := Classical.axiomOfChoice hex
+  have hsymT : Walk.Sym (linkOf T st (fun (_ _ : D) => true)) := linkOf_sym wf hes2.toExtSym (fun _ _ => rfl)
+  have hmono : ∀ x d r, lk1 x d = some r → linkOf T st (fun (_ _ : D) => true) x d = some r :=
+    fun x d r h => linkOf_mono join0 _ (fun _ _ _ => rfl) x d r (pg1.lkSub x d r.1 r.2 h)
+  let och : Nat × Dir → List (Nat × Dir) := fun c => if c.2 = Dir.R then ch c.1 else ((ch c.1).map flip2).reverse
+  have hjc : JoinCompat (U := T) (K := K) (st := st) nodes1 port1 (fun _ _ => true) (fun _ _ => true) := by
+    intro i j ni nj s s' ei ej _ _ _ _; rfl
+  -- ends of the oriented chains
+  have hends : ∀ c : Nat × Dir, c.1 < nodes1.length →
+      OChain (linkOf T st (fun _ _ => true)) (och c) ∧ och c ≠ [] ∧ (och c).map Prod.fst = (if c.2 = Dir.R then mem1 c.1 else (mem1 c.1).reverse) ∧
+      (och c).head?.map flip2 = some (port1 c.1 c.2.flip) ∧ (och c).getLast? = some (port1 c.1 c.2) := by
+    intro c hc
+    obtain ⟨h1, h2, h3, h4⟩ := hch c.1 hc
+    have hne : ch c.1 ≠ [] := by intro e; rw [e] at h4; cases h4
+    have h2' := ochain_mono lk1 _ hmono _ h2
+    obtain ⟨c1, c2⟩ := c
+    cases c2 with
+    | R =>
+      refine ⟨h2', hne, ?_, ?_, ?_⟩
+      · show (ch c1).map Prod.fst = _; rw [h1]; rfl
+      · exact h3
+      · exact h4
+    | L =>
+      refine ⟨ochain_rev _ hsymT _ h2', by simp [och, hne], ?_, ?_, ?_⟩
+      · show (((ch c1).map flip2).reverse).map Prod.fst = _
+        rw [List.map_reverse, List.map_map]
+        have : (Prod.fst ∘ flip2) = (Prod.fst : Nat × Dir → Nat) := by funext p; rfl
+        rw [this, h1]; rfl
+      · show (((ch c1).map flip2).reverse).head?.map flip2 = _
+        rw [List.head?_reverse, List.getLast?_map, h4]
+        simp only [Option.map_some, flip2_flip2]; rfl
+      · show (((ch c1).map flip2).reverse).getLast? = _
+        rw [List.getLast?_reverse, List.head?_map]
+        exact h3
+  have hallends : ∀ c ∈ csn, OChain (linkOf T st (fun _ _ => true)) (och c) ∧ och c ≠ [] := fun c hc =>
+    ⟨(hends c (hlt c hc)).1, (hends c (hlt c hc)).2.1⟩
+  -- junctions
+  have hjoin : Joined (linkOf T st (fun _ _ => true)) och csn := by
+    have aux : ∀ (cs : List (Nat × Dir)), (∀ c ∈ cs, c.1 < nodes1.length) →
+        OChain (glinkV (⟨K, nodes1, st⟩ : G D) st (fun _ _ => true) (List.range nodes1.length)) cs → Joined (linkOf T st (fun _ _ => true)) och cs := by
+      intro cs
+      induction cs with
+      | nil => intro _ _; trivial
+      | cons c t ih =>
+        intro hl hc
+        cases t with
+        | nil => trivial
+        | cons c' rest =>
+          have hc' : LinkedFrom _ c.1 c.2 (c' :: rest) := hc
+          refine ⟨?_, ih (fun x hx => hl x (List.mem_cons_of_mem _ hx)) hc'.2⟩
+          have hcl' := hl c (List.mem_cons_self ..)
+          have hc'l := hl c' (by simp)
+          have hkl := pg1.glink_to_link wf hes2 hcl hx8 _ _ hjc _ c.1 c.2 c'.1 c'.2 hc'.1
+          obtain ⟨y, hy⟩ : ∃ y, (och c').head? = some y := by
+            cases hh : (och c').head? with
+            | none => exact absurd (List.head?_eq_none_iff.mp hh) (hends c' hc'l).2.1
+            | some y => exact ⟨y, rfl⟩
+          refine ⟨port1 c.1 c.2, y, (hends c hcl').2.2.2.2, hy, ?_⟩
+          rw [hkl]
+          have h3 := (hends c' hc'l).2.2.2.1
+          rw [hy] at h3
+          simp only [Option.map_some, Option.some.injEq] at h3
+          rw [← h3]
+          congr 1
+          obtain ⟨y1, y2⟩ := y
+          cases y2 <;> rfl
+    exact aux csn hlt hoc
+  refine ⟨csn.flatMap och, ?_, ochain_flatMap _ och csn hallends hjoin, ?_, ?_⟩
+  · rw [List.map_flatMap, List.flatMap_def, List.flatMap_def]
+    congr 1
+    apply List.map_congr_left
+    intro c hc
+    exact (hends c (hlt c hc)).2.2.1
+  · cases hcs : csn with
+    | nil => rfl
+    | cons c0 t =>
+      have hc0 : c0.1 < nodes1.length := hlt c0 (by rw [hcs]; exact List.mem_cons_self ..)
+      rw [head?_flatMap_cons och c0 t (hends c0 hc0).2.1, (hends c0 hc0).2.2.2.1]
+      rfl
+  · cases hcs : csn.getLast? with
+    | none =>
+      have : csn = [] := List.getLast?_eq_none_iff.mp hcs
+      rw [this]; rfl
+    | some cm =>
+      obtain ⟨front, hfront⟩ := list_front_last csn cm hcs
+      have hcm : cm.1 < nodes1.length := hlt cm (by rw [hfront]; simp)
+      rw [hfront, getLast?_flatMap_snoc och front cm (hends cm hcm).2.1, (hends cm hcm).2.2.2.2]
+      rfl
+
 /-- per-node obligations of a ported graph, for one node given with its two ports and its member list -/
 structure NodeOK (T : Table D) (K : Nat) (st : Bool) (nd : Node D) (pL pR : Nat × Dir) (mem : List Nat) : Prop where
   len : K ≤ nd.seq.length
@@ -249,6 +375,8 @@ structure NodeOK (T : Table D) (K : Nat) (st : Bool) (nd : Node D) (pL pR : Nat 
   inner : ∀ w ∈ mem, ∀ δ, (w, δ) ≠ pL → (w, δ) ≠ pR →
     ∃ w' d', linkOf T st (fun _ _ => true) w δ = some (w', d') ∧ w' ∈ mem ∧ (w', d'.flip) ≠ pL ∧ (w', d'.flip) ≠ pR
   connM : ∀ x ∈ mem, ∀ y ∈ mem, Conn (linkOf T st (fun _ _ => true)) x y
+  chain : ∃ cs : List (Nat × Dir), cs.map Prod.fst = mem ∧ OChain (linkOf T st (fun _ _ => true)) cs ∧
+    cs.head?.map flip2 = some pL ∧ cs.getLast? = some pR
 
 end Compress
 
@@ -578,6 +706,34 @@ theorem recompress_node_ok {T : Table D} {K : Nat} {st : Bool} {join0 : D → D 
     refine ⟨hl1, by rw [hseq]; exact hrcY, ?_, ?_⟩
     · rw [hYLeq]; simp only; rw [hseedY, hportsY .L]
     · rw [hYLeq, hYReq]; simp only; rw [hseedY, hportsY .R, hportsY .L]
-  exact ⟨nd', path, a', hb, hids, ⟨hlen, npL, npR, pal, keys, pLmem, pRmem, pne, inner, connM⟩⟩
+  -- the k-mer chain of the new node
+  have chain : ∃ cs : List (Nat × Dir), cs.map Prod.fst = memOf mem1 path ∧ OChain (linkOf T st (fun _ _ => true)) cs ∧
+      cs.head?.map flip2 = some (port1 YL.1 YL.2) ∧ cs.getLast? = some (port1 YR.1 YR.2) := by
+    have hll : LinkedFrom link seed .L lw.1 := by rw [← hlw]; exact walk_linked link _ seed .L
+    have hrr : LinkedFrom link seed .R rw.1 := by rw [← hrw]; exact walk_linked link _ seed .R
+    have hoc := nodeChain_ochain link hsym lw.1 rw.1 seed hll hrr
+    rw [hlink'] at hoc
+    have hcsn : ∀ c ∈ nodeChain lw.1 rw.1 seed, c.1 < nodes1.length := by
+      intro c hc
+      have : CompressGraph.flip2 c ∈ path := by rw [hpath]; exact List.mem_map_of_mem hc
+      exact hpathlt (CompressGraph.flip2 c) this
+    obtain ⟨cs, h1, h2, h3, h4⟩ := new_chain pg1 wf hes2 hcl hx8 (nodeChain lw.1 rw.1 seed) hoc hcsn
+    refine ⟨cs, ?_, h2, ?_, ?_⟩
+    · rw [h1, hpath]
+      unfold memOf
+      rw [List.flatMap_map]
+      rw [List.flatMap_def, List.flatMap_def]
+      congr 1
+      apply List.map_congr_left
+      intro c _
+      obtain ⟨c1, c2⟩ := c
+      cases c2 <;> rfl
+    · rw [h3]
+      obtain ⟨c0, h0, hc0⟩ := nodeChain_head lw.1 rw.1 seed
+      rw [List.head?_eq_getElem?, h0, Option.map_some]
+      rw [hYL] at hc0
+      rw [← hc0]; rfl
+    · rw [h4, List.getLast?_eq_getElem?, nodeChain_last, Option.map_some, hYR]
+  exact ⟨nd', path, a', hb, hids, ⟨hlen, npL, npR, pal, keys, pLmem, pRmem, pne, inner, connM, chain⟩⟩
 
 end Compress
